@@ -7,12 +7,13 @@ S->C  : every enumerated configuration replayed into DWT1DForward / DWTForward w
         operator TLC printed for Ref; PyWavelets run on the same probes pins Ref to the oracle.
         MC_Helpers (mypad / roll / mode_to_int / prep_filt_* / symm_pad_1d as total functions, proved equal to the
         declarative extension maps, replayed into the real helpers; deviations are impl-drift diagnostics).
-C->S  : operators recorded from the real code for real wavelets / hypothesis-chosen sizes outside
+C->S  : the hook events of every distinct DWT1DForward / DWTForward call made by the repository's own test files (run under
+        the recording plugin harness/suiteplugin.py) validated by Trace_DWT1Calls / Trace_DWT2; operators recorded from the real code for real wavelets / hypothesis-chosen sizes outside
         the bounded model are validated by the TLC trace specification Trace_DWT1.
 """
 import numpy as np
 
-from .. import dwtlib, dwtmodel, oracles, dwtchecks, stagetrace, helperchecks
+from .. import dwtlib, dwtmodel, oracles, dwtchecks, stagetrace, helperchecks, suitetrace
 from ..findings import Findings
 
 LEVEL = "model_checking"
@@ -38,6 +39,9 @@ def run(rep):
     dwtchecks.trace_validate_analysis(rep, "C01", rep.tier)
     stagetrace.validate_dwt1(rep, "C01", rep.tier, "DWT1DForward")
     stagetrace.validate_dwt2(rep, "C01", rep.tier, "DWTForward")
+    # the repository's own tests as the driver: every distinct call they make must be a behaviour of the call machines
+    suitetrace.validate_suite(rep, "C01", "DWT1DForward")
+    suitetrace.validate_suite(rep, "C01", "DWTForward")
     dwtchecks.numeric_vs_pywt(rep, "C01", rep.tier)
     helperchecks.helper_fidelity(rep, "C01", rep.tier)
     rep.assumptions += [
